@@ -25,12 +25,15 @@ RULE = ('cases = random state trees (depth <= 3 quick / 4 thorough, <= 3 childre
 ASSUMPTIONS = ['callbacks do not raise and do not trigger (C04/C05)', 'async classes: C07',
                "'initial' lists naming a strict subset of a compound's children are outside the envelope (D16)"]
 THEOREMS = ['C02_balanced', 'C02_exit_only_active', 'C02_enter_only_inactive', 'C02_exit_order', 'C02_enter_order',
-            'C02_only_resolutions', 'C02_uniq_invariant', 'C02_registered', 'C02_example']
+            'C02_only_resolutions', 'C02_uniq_invariant', 'C02_registered', 'C02_initial_closure', 'C02_example']
 
 
 def gen(rng, i, tier):
-    c = hsm.gen_case(rng, max_depth=(4 if tier == 'thorough' and i % 3 == 0 else 3), p_parallel=0.35, p_enum=0.2,
+    c = hsm.gen_case(rng, max_depth=(4 if tier == 'thorough' and i % 3 == 0 else 3), p_parallel=(0.8 if i % 5 == 2 else 0.35), p_enum=0.2,
                      p_subset=(0.7 if i % 10 == 7 else 0.0))
+    if i % 5 == 2:
+        # two regions of an active parallel state declare the event, the first one's transition moves the other region
+        hsm.add_cross_region(c, rng)
     n = [0]
     for p, d in hsm.all_defs(c['machine']):
         for key in ('enter', 'exit'):
